@@ -351,17 +351,28 @@ def c04(tier, seed):
 def rejection_free(case):
     """structural description (no oracle): single flat crossing, no cross-trial constraint, no complex-window factor"""
     b = case["block"]
+    outer = []
+    if b["op"] == "Repeat" and b["block"]["op"] == "Cross":      # rounds of one flat crossing
+        outer = b["cons"]
+        b = b["block"]
     if b["op"] != "Cross":
         return False
     if any(gen.is_complex(case["factors"], i) for i in b["design"]):
         return False
-    return all(k["c"] in ("MinimumTrials", "Exclude") for k in b["cons"])
+    return all(k["c"] in ("MinimumTrials", "Exclude") for k in list(b["cons"]) + list(outer))
 
 
 def c06(tier, seed):
     def ops(c):
-        return [{"op": "synth", "strategy": RND, "n": pipeline.CAP, "exhaust": True, "timeout": 30},
-                {"op": "sample", "strategy": RND, "n": 1, "timeout": 30}]
+        o = [{"op": "synth", "strategy": RND, "n": pipeline.CAP, "exhaust": True, "timeout": 30},
+             {"op": "sample", "strategy": RND, "n": 1, "timeout": 30}]
+        if rejection_free(c):
+            # the number of valid sequences, established independently of RandomGen (IterateSATGen's exhausted set proved
+            # equal to the specification's valid set): without a rejection step every key of RandomGen's key space is one
+            # returned sequence, so a key space of another size makes it stop early, repeat itself or never stop
+            o.append({"op": "synth", "strategy": SAT, "n": pipeline.CAP, "exhaust": True, "timeout": 60})
+            o.append({"op": "rg_keys", "timeout": 30})
+        return o
 
     def judge(r, out, cov):
         if not judge_build("C06", r, []):
@@ -369,6 +380,16 @@ def c06(tier, seed):
             return
         o = r.obs[1]
         judge_raised("C06", r, 1, out)
+        m = r.obs[2] if len(r.obs) > 2 else None
+        s = r.obs[3] if len(r.obs) > 3 else None
+        kk = r.obs[4] if len(r.obs) > 4 else None
+        if (s and s["status"] == "returned" and 3 in r.enumerated and not r.missing[3] and all(v == "ok" for v in r.verdicts[3])
+                and kk and kk["status"] == "returned" and kk["keys"] >= 0 and not partially_crossed_weighted(r.case)):
+            cov.notes["key_space_checked_vs_spec"] = cov.notes.get("key_space_checked_vs_spec", 0) + 1
+            if kk["keys"] != s["count"]:
+                out.append(violation("C06", "keyspace", r.case, strategy=RND, keys=kk["keys"], per_round=kk["per_round"],
+                                     rounds=kk["rounds"], leftover=kk["leftover"], valid=s["count"],
+                                     how="valid set established by IterateSATGen + MCEnum"))
         if o["status"] == "timeout":
             # RandomGen's loop is bounded by possible_keys, which can be astronomically large when most candidates
             # are rejected (sustained factors, LatinSquare): the watchdog result is inconclusive, not a violation
@@ -382,7 +403,6 @@ def c06(tier, seed):
         judge_distinct("C06", r, 1, out)
         judge_mult_exact("C06", r, 1, out)
         # reported count for designs that need no rejection step and are a single round
-        m = r.obs[2] if len(r.obs) > 2 else None
         if (m and m["status"] == "returned" and "solution_count" in m.get("metrics", {}) and rejection_free(r.case)
                 and 1 in r.enumerated and not r.missing[1] and all(v == "ok" for v in r.verdicts[1])):
             x = r.nb[3][0] if r.nb[3] else None
